@@ -155,9 +155,13 @@ EvNew(ev) == IF ev.op = "reassign" THEN ev.new ELSE 0
 
 \* argument validity (an invalid call must raise and change nothing)
 EvValid(d, ev) ==
-  CASE ev.op \in {"reassign", "remove", "keep"} -> RangeOf(ev.labels) \subseteq LabelSet(d)
+  \* (recorded events carry dtmax, the largest value of the array's integer dtype: labels that do not fit must be refused, not wrapped)
+  CASE ev.op \in {"reassign", "remove", "keep"} -> /\ RangeOf(ev.labels) \subseteq LabelSet(d)
+                                                  /\ (("dtmax" \in DOMAIN ev /\ ev.op = "reassign") => ev.new <= ev.dtmax)
     [] ev.op = "remove_border"       -> BorderOK(d, ev.width)
-    [] ev.op = "relabel_consecutive" -> LabelSet(d) = {} \/ ev.start > 0
+    [] ev.op = "relabel_consecutive" -> /\ (LabelSet(d) = {} \/ ev.start > 0)
+                                        /\ (("dtmax" \in DOMAIN ev /\ LabelSet(d) # {} /\ ev.start > 0 /\ ~RelabelNoop(d, ev.start))
+                                                => ev.start + Cardinality(LabelSet(d)) - 1 <= ev.dtmax)
     [] OTHER -> TRUE
 
 EffData(d, ev) ==
